@@ -211,7 +211,7 @@ theorem removed_argument_reported (o n : SchemaD) (ot nt : TypeD) (f g : FieldD)
   apply of_field_args hp hf hg
   unfold diffFieldArguments
   simp only [List.mem_append]
-  left
+  left; left
   apply List.mem_filterMap.mpr
   exact ⟨a, ha, by simp [hn]⟩
 
@@ -223,7 +223,7 @@ theorem added_argument_reported (o n : SchemaD) (ot nt : TypeD) (f g : FieldD) (
   apply of_field_args hp hf hg
   unfold diffFieldArguments
   simp only [List.mem_append]
-  right
+  left; right
   apply List.mem_map.mpr
   exact ⟨b, List.mem_filter.mpr ⟨hb, by simp [ho]⟩, rfl⟩
 
@@ -235,7 +235,7 @@ theorem retyped_argument_reported (o n : SchemaD) (ot nt : TypeD) (f g : FieldD)
   apply of_field_args hp hf hg
   unfold diffFieldArguments
   simp only [List.mem_append]
-  left
+  left; left
   apply List.mem_filterMap.mpr
   exact ⟨a, ha, by simp [hb, hu]⟩
 
@@ -248,9 +248,67 @@ theorem argument_default_change_reported (o n : SchemaD) (ot nt : TypeD) (f g : 
   apply of_field_args hp hf hg
   unfold diffFieldArguments
   simp only [List.mem_append]
-  left
+  left; left
   apply List.mem_filterMap.mpr
   exact ⟨a, ha, by simp [hb, hs, hd]⟩
+
+/-- membership in `compatRetypes` of the retyping of a matched pair -/
+theorem mem_compatRetypes (cls : String) (key : ArgD → ArgD → List (String × String)) (olds news : List ArgD) (a b : ArgD)
+    (s : Nat) (hsev : PyGql.Generated.Differ.compatibleRetypeSeverity = some s)
+    (ha : a ∈ olds) (hb : news.find? (·.name == a.name) = some b) (hs : safeIn a.type b.type = true)
+    (hne : a.type ≠ b.type) :
+    ({ cls := cls, key := key a b, severity := s } : Change) ∈ compatRetypes cls key olds news := by
+  unfold compatRetypes
+  apply List.mem_flatMap.mpr
+  refine ⟨a, ha, ?_⟩
+  simp [hb, hs, compatRetype, hsev, hne]
+
+/-- the source has the `_compatible` helper and it gives the COMPATIBLE severity (re-extracted every run) -/
+theorem compatible_retype_severity : PyGql.Generated.Differ.compatibleRetypeSeverity = some 0 := rfl
+
+/-- **A compatible retyping of an argument is reported** (was finding G5: nothing was reported): the differ
+    considers `a.type -> b.type` safe and the two differ ⇒ a `FieldArgumentChangedType` naming the argument, COMPATIBLE. -/
+theorem compatibly_retyped_argument_reported (o n : SchemaD) (ot nt : TypeD) (f g : FieldD) (a b : ArgD)
+    (hp : FieldHost o n ot nt) (hf : f ∈ ot.fields) (hg : nt.fields.find? (·.name == f.name) = some g)
+    (ha : a ∈ f.args) (hb : g.args.find? (·.name == a.name) = some b) (hs : safeIn a.type b.type = true)
+    (hne : a.type ≠ b.type) :
+    ({ cls := "FieldArgumentChangedType",
+       key := [("field", f.name), ("new_argument", b.name), ("old_argument", a.name), ("type", ot.name)],
+       severity := 0 } : Change) ∈ diffSchema o n 0 := by
+  apply of_field_args hp hf hg
+  unfold diffFieldArguments
+  simp only [List.mem_append]
+  right
+  exact mem_compatRetypes _ _ _ _ a b 0 compatible_retype_severity ha hb hs hne
+
+/-- **A compatible retyping of a field is reported** (`Int` -> `Int!`, `[Int]` -> `[Int]!`), COMPATIBLE. -/
+theorem compatibly_retyped_field_reported (o n : SchemaD) (ot nt : TypeD) (f g : FieldD) (hp : FieldHost o n ot nt)
+    (hf : f ∈ ot.fields) (hg : nt.fields.find? (·.name == f.name) = some g) (hs : safeOut f.type g.type = true)
+    (hne : f.type ≠ g.type) :
+    ({ cls := "FieldChangedType", key := [("new_field", g.name), ("old_field", f.name), ("type", ot.name)],
+       severity := 0 } : Change) ∈ diffSchema o n 0 := by
+  apply of_fields hp
+  apply mem_diffFields_of_field ot nt f g _ hf hg
+  simp [diffField, hs, compatRetype, compatible_retype_severity, hne]
+
+/-- every retyping of a field is reported, whatever the differ thinks of its safety -/
+theorem any_retyped_field_reported (o n : SchemaD) (ot nt : TypeD) (f g : FieldD) (hp : FieldHost o n ot nt)
+    (hf : f ∈ ot.fields) (hg : nt.fields.find? (·.name == f.name) = some g) (hne : f.type ≠ g.type) :
+    ∃ c ∈ diffSchema o n 0, c.cls = "FieldChangedType"
+      ∧ c.key = [("new_field", g.name), ("old_field", f.name), ("type", ot.name)] := by
+  cases hs : safeOut f.type g.type with
+  | true => exact ⟨_, compatibly_retyped_field_reported o n ot nt f g hp hf hg hs hne, rfl, rfl⟩
+  | false => exact ⟨_, retyped_field_reported_any o n ot nt f g hp hf hg hs, rfl, rfl⟩
+
+/-- every retyping of an argument is reported -/
+theorem any_retyped_argument_reported (o n : SchemaD) (ot nt : TypeD) (f g : FieldD) (a b : ArgD)
+    (hp : FieldHost o n ot nt) (hf : f ∈ ot.fields) (hg : nt.fields.find? (·.name == f.name) = some g)
+    (ha : a ∈ f.args) (hb : g.args.find? (·.name == a.name) = some b) (hne : a.type ≠ b.type) :
+    ∃ c ∈ diffSchema o n 0, c.cls = "FieldArgumentChangedType"
+      ∧ c.key = [("field", f.name), ("new_argument", b.name), ("old_argument", a.name), ("type", ot.name)] := by
+  cases hs : safeIn a.type b.type with
+  | true => exact ⟨_, compatibly_retyped_argument_reported o n ot nt f g a b hp hf hg ha hb hs hne, rfl, rfl⟩
+  | false => exact ⟨_, retyped_argument_reported o n ot nt f g a b hp hf hg ha hb hs, rfl, rfl⟩
 
 /-! ### interface implementations -/
 
@@ -376,7 +434,7 @@ theorem removed_input_field_reported (o n : SchemaD) (ot nt : TypeD) (f : ArgD)
   apply List.mem_flatMap.mpr
   refine ⟨(ot, nt), hp, ?_⟩
   simp only [List.mem_append]
-  left
+  left; left
   apply List.mem_filterMap.mpr
   exact ⟨f, hf, by simp [hn]⟩
 
@@ -389,7 +447,7 @@ theorem added_input_field_reported (o n : SchemaD) (ot nt : TypeD) (g : ArgD)
   apply List.mem_flatMap.mpr
   refine ⟨(ot, nt), hp, ?_⟩
   simp only [List.mem_append]
-  right
+  left; right
   apply List.mem_map.mpr
   exact ⟨g, List.mem_filter.mpr ⟨hg, by simp [ho]⟩, rfl⟩
 
@@ -402,7 +460,7 @@ theorem retyped_input_field_reported (o n : SchemaD) (ot nt : TypeD) (f g : ArgD
   apply List.mem_flatMap.mpr
   refine ⟨(ot, nt), hp, ?_⟩
   simp only [List.mem_append]
-  left
+  left; left
   apply List.mem_filterMap.mpr
   exact ⟨f, hf, by simp [hg, hu]⟩
 
@@ -417,9 +475,34 @@ theorem input_field_default_change_reported (o n : SchemaD) (ot nt : TypeD) (f g
   apply List.mem_flatMap.mpr
   refine ⟨(ot, nt), hp, ?_⟩
   simp only [List.mem_append]
-  left
+  left; left
   apply List.mem_filterMap.mpr
   exact ⟨f, hf, by simp [hg, hs, hd]⟩
+
+/-- **A compatible retyping of an input field is reported**, COMPATIBLE. -/
+theorem compatibly_retyped_input_field_reported (o n : SchemaD) (ot nt : TypeD) (f g : ArgD)
+    (hp : (ot, nt) ∈ matchingPairs o n .input) (hf : f ∈ ot.inputFields)
+    (hg : nt.inputFields.find? (·.name == f.name) = some g) (hs : safeIn f.type g.type = true)
+    (hne : f.type ≠ g.type) :
+    ({ cls := "InputFieldChangedType", key := [("new_field", g.name), ("old_field", f.name), ("type", ot.name)],
+       severity := 0 } : Change) ∈ diffSchema o n 0 := by
+  apply of_input
+  unfold diffInputTypes
+  apply List.mem_flatMap.mpr
+  refine ⟨(ot, nt), hp, ?_⟩
+  simp only [List.mem_append]
+  right
+  exact mem_compatRetypes _ _ _ _ f g 0 compatible_retype_severity hf hg hs hne
+
+/-- every retyping of an input field is reported -/
+theorem any_retyped_input_field_reported (o n : SchemaD) (ot nt : TypeD) (f g : ArgD)
+    (hp : (ot, nt) ∈ matchingPairs o n .input) (hf : f ∈ ot.inputFields)
+    (hg : nt.inputFields.find? (·.name == f.name) = some g) (hne : f.type ≠ g.type) :
+    ∃ c ∈ diffSchema o n 0, c.cls = "InputFieldChangedType"
+      ∧ c.key = [("new_field", g.name), ("old_field", f.name), ("type", ot.name)] := by
+  cases hs : safeIn f.type g.type with
+  | true => exact ⟨_, compatibly_retyped_input_field_reported o n ot nt f g hp hf hg hs hne, rfl, rfl⟩
+  | false => exact ⟨_, retyped_input_field_reported o n ot nt f g hp hf hg hs, rfl, rfl⟩
 
 /-! ### directives, their locations and arguments -/
 
@@ -484,7 +567,7 @@ theorem removed_directive_argument_reported (o n : SchemaD) (d e : DirectiveD) (
   right
   unfold diffDirectiveArguments
   simp only [List.mem_append]
-  left
+  left; left
   apply List.mem_filterMap.mpr
   exact ⟨a, ha, by simp [hn]⟩
 
@@ -497,7 +580,7 @@ theorem added_directive_argument_reported (o n : SchemaD) (d e : DirectiveD) (b 
   right
   unfold diffDirectiveArguments
   simp only [List.mem_append]
-  right
+  left; right
   apply List.mem_map.mpr
   exact ⟨b, List.mem_filter.mpr ⟨hb, by simp [ho]⟩, rfl⟩
 
@@ -511,9 +594,34 @@ theorem retyped_directive_argument_reported (o n : SchemaD) (d e : DirectiveD) (
   right
   unfold diffDirectiveArguments
   simp only [List.mem_append]
-  left
+  left; left
   apply List.mem_filterMap.mpr
   exact ⟨a, ha, by simp [hb, hu]⟩
+
+/-- **A compatible retyping of a directive argument is reported**, COMPATIBLE. -/
+theorem compatibly_retyped_directive_argument_reported (o n : SchemaD) (d e : DirectiveD) (a b : ArgD) (hd : d ∈ o.directives)
+    (he : n.directives.find? (·.name == d.name) = some e) (ha : a ∈ d.args)
+    (hb : e.args.find? (·.name == a.name) = some b) (hs : safeIn a.type b.type = true) (hne : a.type ≠ b.type) :
+    ({ cls := "DirectiveArgumentChangedType",
+       key := [("directive", d.name), ("new_argument", b.name), ("old_argument", a.name)], severity := 0 } : Change)
+      ∈ diffSchema o n 0 := by
+  apply of_directive hd he
+  simp only [List.mem_append]
+  right
+  unfold diffDirectiveArguments
+  simp only [List.mem_append]
+  right
+  exact mem_compatRetypes _ _ _ _ a b 0 compatible_retype_severity ha hb hs hne
+
+/-- every retyping of a directive argument is reported -/
+theorem any_retyped_directive_argument_reported (o n : SchemaD) (d e : DirectiveD) (a b : ArgD) (hd : d ∈ o.directives)
+    (he : n.directives.find? (·.name == d.name) = some e) (ha : a ∈ d.args)
+    (hb : e.args.find? (·.name == a.name) = some b) (hne : a.type ≠ b.type) :
+    ∃ c ∈ diffSchema o n 0, c.cls = "DirectiveArgumentChangedType"
+      ∧ c.key = [("directive", d.name), ("new_argument", b.name), ("old_argument", a.name)] := by
+  cases hs : safeIn a.type b.type with
+  | true => exact ⟨_, compatibly_retyped_directive_argument_reported o n d e a b hd he ha hb hs hne, rfl, rfl⟩
+  | false => exact ⟨_, retyped_directive_argument_reported o n d e a b hd he ha hb hs, rfl, rfl⟩
 
 theorem directive_argument_default_change_reported (o n : SchemaD) (d e : DirectiveD) (a b : ArgD)
     (hd : d ∈ o.directives) (he : n.directives.find? (·.name == d.name) = some e) (ha : a ∈ d.args)
@@ -526,7 +634,7 @@ theorem directive_argument_default_change_reported (o n : SchemaD) (d e : Direct
   right
   unfold diffDirectiveArguments
   simp only [List.mem_append]
-  left
+  left; left
   apply List.mem_filterMap.mpr
   exact ⟨a, ha, by simp [hb, hs, hc]⟩
 
